@@ -49,12 +49,15 @@ def check(run):
     # the build-script API parses with skip_icu_cfg = true
     loadfam.replay_load(run, robust + projects[:500], "Trace_Robust", "Trace_Robust.cfg", skip_icu=True,
                         key_of=lambda c, r: "build-api;" + _key(c, r), tag="_buildapi", per_case_timeout=30)
+    # code generation (the real generator of leptos_i18n_macro, in-process) on the same projects
+    loadfam.replay_load(run, robust + projects, "Trace_Robust", "Trace_Robust.cfg", package="drv_codegen",
+                        key_of=lambda c, r: "codegen;" + _key(c, r), tag="_codegen", per_case_timeout=60)
     run.exhaustive = True
     run.notes["strings"] = len(strings)
     run.notes["adversarial_projects"] = len(robust)
     run.assumptions = ["all strings of at most MaxLex lexemes over a 16-lexeme adversarial alphabet ({{ }} < > / $t( ) , { } \" a e-acute SP NBSP emoji)",
                        "model-generated robustness testing: bounded alphabet and length, not a proof",
-                       "code generation on accepted inputs is exercised by the codegen driver when built (see evidence key codegen_cases)"]
+                       "code generation: the `load_locales` / `utils` modules of leptos_i18n_macro are included by path into a driver and the real load_locales() runs in-process on every project"]
     return run.finish("every string of the bounded adversarial language through ParsedValue::new (two builds) and, one per project, "
                       "through parse_locales; plus grammar-aware adversarial projects; non-trivial: strings containing a delimiter",
                       {"distinct_nontrivial": sum(1 for s in strings if any(x in ("LT", "LB", "DOL") for x in s["s"]))})
